@@ -249,8 +249,96 @@ def policy_peer_has_no_failure():
     return res
 
 
+def _wellformed_blob(kt):
+    """public key blob of host-key type kt as OpenSSH encodes it (PROTOCOL, PROTOCOL.certkeys, PROTOCOL.u2f), good-sized; None if the type is unknown here"""
+    import struct
+    S = lambda b: struct.pack('>I', len(b)) + b
+    base = kt.replace('-cert-v01@openssh.com', '')
+    rsa_n = b'\x00' + b'\xc3' * 512          # 4096-bit modulus as mpint
+    if base in ('ssh-rsa', 'rsa-sha2-256', 'rsa-sha2-512'):
+        key = [S(b'\x01\x00\x01'), S(rsa_n)]
+        wire = 'ssh-rsa'
+    elif base == 'ssh-ed25519':
+        key, wire = [S(b'\x11' * 32)], 'ssh-ed25519'
+    elif base == 'ssh-ed448':
+        key, wire = [S(b'\x11' * 57)], 'ssh-ed448'
+    elif base.startswith('ecdsa-sha2-nistp'):
+        n = {'256': 32, '384': 48, '521': 66}[base[-3:]]
+        key, wire = [S(base[11:].encode()), S(b'\x04' + b'\x22' * (2 * n))], base
+    elif base == 'ssh-dss':
+        key, wire = [S(b'\x00' + b'\xd5' * 128), S(b'\x00' + b'\xd5' * 20), S(b'\x05'), S(b'\x00' + b'\xd5' * 128)], 'ssh-dss'
+    elif base == 'sk-ssh-ed25519@openssh.com':
+        key, wire = [S(b'\x11' * 32), S(b'ssh:')], base
+    elif base == 'sk-ecdsa-sha2-nistp256@openssh.com':
+        key, wire = [S(b'nistp256'), S(b'\x04' + b'\x22' * 64), S(b'ssh:')], base
+    else:
+        return None
+    if kt.endswith('-cert-v01@openssh.com'):
+        ca = S(b'ssh-ed25519') + S(b'\x33' * 32)
+        wirecert = (wire if wire != 'ssh-rsa' else 'ssh-rsa') + '-cert-v01@openssh.com'
+        return S(wirecert.encode()) + S(b'\x44' * 32) + b''.join(key) + b'\x00' * 8 + struct.pack('>I', 2) + S(b'id') + S(b'') + b'\x00' * 8 + b'\xff' * 8 + S(b'') + S(b'') + S(b'') + S(ca) + S(b'sig')
+    return S(wire.encode()) + b''.join(key)
+
+
+def probe_table_vs_policies():
+    """every host-key type of the probe table that a built-in policy requires or permits: probing a WELL-FORMED, good-sized key of that type with the real
+    reply parser and the real perform_test must not add a failure to its row (otherwise a policy-conformant server fails the standard audit)."""
+    import struct
+    t0 = time.time()
+    res = _res('probed-host-key-types-of-policies-measure-without-failure')
+    MP = H.mods()[1]
+    from vf.harness import fresh_process_state
+    from props.c09 import FakeSockRW
+    from props.c11 import StubSock
+    from props.c06 import make_kex
+    pol = MP.builtin_policies.BUILTIN_POLICIES
+    permitted = sorted({n for p in pol.values() for f in ('host_keys', 'optional_host_keys') for n in (p[f] or [])})
+    S = lambda b: struct.pack('>I', len(b)) + b
+    for kt in MP.hostkeytest.HostKeyTest.HOST_KEY_TYPES:
+        if kt not in permitted:
+            continue
+        blob = _wellformed_blob(kt)
+        res['paths'] += 1
+        res['asserts'] += 1
+        if blob is None:
+            res['status'] = 'inconclusive'
+            res['error'] = 'no well-formed key layout known for probed type %s' % kt
+            continue
+        fresh_process_state(MP)
+        OL.fresh_tables(MP)
+        out = MP.outputbuffer.OutputBuffer()
+        payload = S(blob) + S(b'f') + S(b'sig')
+
+        class Grp(MP.kexdh.KexDH):
+            def __init__(self_):
+                MP.kexdh.KexDH.__init__(self_, out, 'x', 'sha256', 0, 0)
+
+            def send_init(self_, s, init_msg=30):
+                pass
+
+            def recv_reply(self_, s, parse_host_key_size=True):
+                return MP.kexdh.KexDH.recv_reply(self_, FakeSockRW([(31, payload)]), parse_host_key_size)
+        kex = make_kex(MP, {'key': [kt]})
+        try:
+            MP.hostkeytest.HostKeyTest.perform_test(out, StubSock(), kex, 'curve25519-sha256', Grp(), MP.hostkeytest.HostKeyTest.HOST_KEY_TYPES)
+        except Exception as e:   # noqa
+            _viol(res, 'probe-of-policy-permitted-type-crashes', kt, {'type': kt, 'exception': type(e).__name__})
+            continue
+        row = MP.ssh2_kexdb.SSH2_KexDB.get_db()['key'][kt]
+        base = MP.ssh2_kexdb.SSH2_KexDB.MASTER_DB['key'][kt]
+        added = (row[1] if len(row) > 1 else [])[len(base[1]) if len(base) > 1 else 0:]
+        res['xval'] += 1
+        if added:
+            _viol(res, 'probe-of-policy-permitted-type-adds-failure', kt, {'type': kt, 'notes': added, 'recorded': {k: v for k, v in kex.host_keys().get(kt, {}).items() if k != 'raw_hostkey_bytes'}})
+    res['decisions'] = res['paths']
+    res['sample'] = {'inputs': {'types': res['paths']}, 'observation': 'no failure note added by probing a well-formed good-sized key'}
+    res['note'] = 'finite exhaustive over HOST_KEY_TYPES x built-in policies, real recv_reply + perform_test on concrete well-formed blobs'
+    res['wall_s'] = round(time.time() - t0, 3)
+    return res
+
+
 def tasks(tier):
-    return [cross_references, policies_vs_ratings, branded_primitives, row_shapes, policy_peer_has_no_failure]
+    return [cross_references, policies_vs_ratings, branded_primitives, row_shapes, policy_peer_has_no_failure, probe_table_vs_policies]
 
 
 def harness_by_name(name, params):
